@@ -76,7 +76,9 @@ def da_rule(draw, i):
 @st.composite
 def da_rule_file(draw):
     n = draw(st.integers(1, 6))
-    return {'vars': draw(st.lists(st.sampled_from([['is_large', ['cmp', ['name', 'amount'], [['>', ['num', 100]]]]],
+    # (optionally preceded by a variable that needs a date / a custom column: asking about a bare description cannot evaluate THAT one - the others are unaffected)
+    return {'vars': draw(st.lists(st.sampled_from([['recent', ['cmp', ['name', 'date'], [['>=', ['str', '2020-01-01']]]]], ['has_code', ['cmp', ['field', 'code'], [['==', ['str', 'x']]]]]]), max_size=1)) +
+                    draw(st.lists(st.sampled_from([['is_large', ['cmp', ['name', 'amount'], [['>', ['num', 100]]]]],
                                                    ['threshold_ok', ['cmp', ['name', 'amount'], [['<=', ['num', 50]]]]]]), max_size=2, unique_by=lambda v: v[0])),
             'transforms': draw(st.lists(st.sampled_from([r for r in [
                 ['description', ['call', 'regex_replace', [['fieldb', 'description'], ['str', r'^APLPAY\s+'], ['str', '']]]],
